@@ -37,7 +37,12 @@ esac
 cmake -G Ninja -S $REPO -B $B/lib -DCMAKE_BUILD_TYPE=$BT -DCMAKE_C_COMPILER=$CC -DBUILD_TESTING=OFF -DBUILD_SHARED_LIBS=OFF \
   -DAWS_WARNINGS_ARE_ERRORS=OFF -DCMAKE_C_FLAGS="$LIBFLAGS" -DCMAKE_C_FLAGS_DEBUG="" -DCMAKE_C_FLAGS_RELEASE="" > $B/cmake.log 2>&1 || { cat $B/cmake.log; exit 2; }
 cmake --build $B/lib -j16 > $B/build.log 2>&1 || { tail -50 $B/build.log; exit 2; }
-INC="-I$REPO/include -I$B/lib/generated/include -I$V/sim -I$V"
+# dictionary for the harnesses: the 64-bit immediates of the library's own machine code (magic values it compares memory against),
+# used as contents of caller-owned memory; only rewritten when it changes (the harness objects depend on it)
+objdump -d $B/lib/libaws-c-common.a 2>/dev/null | grep -oE 'movabs \$0x[0-9a-f]+' | sed 's/movabs \$//' | sort -u | awk '{print $1"ull,"}' > $B/obj/dict64.inc.new
+cmp -s $B/obj/dict64.inc.new $B/obj/dict64.inc 2>/dev/null || mv $B/obj/dict64.inc.new $B/obj/dict64.inc
+rm -f $B/obj/dict64.inc.new
+INC="-I$REPO/include -I$B/lib/generated/include -I$V/sim -I$V -I$B/obj"
 SRCS="sim/sim.cc sim/sim_alloc.cc sim/sim_file.cc runner/main.cc harness/common.cc"
 DEFS=""
 for h in c15_ring c07_tasksched c08_threadsched c14_logging c20_threads c03_sba c17_memtrace c01_bufio; do
